@@ -372,6 +372,19 @@ func c14Tables(v *c14Vec) Result {
 			return Result{Sig: sig, Observed: out, Expected: want, Key: "tables",
 				Detail: fmt.Sprintf("%s rendered %q (err %v); %s gives %q", src, out, err, bi.Go, want)}
 		}
+		// the same call with its first argument piped in, and with its last argument piped into a slot
+		if n := len(bi.Args); n >= 1 && src == "{{ "+bi.Name+"("+strings.Join(bi.Args, ", ")+") }}" {
+			for form, alt := range []string{
+				"{{ " + bi.Args[0] + " | " + bi.Name + "(" + strings.Join(bi.Args[1:], ", ") + ") }}",
+				"{{ " + bi.Args[n-1] + " | " + bi.Name + "(" + strings.Join(append(append([]string{}, bi.Args[:n-1]...), "_"), ", ") + ") }}"} {
+				out2, err2 := c14Render(alt)
+				if (err2 != nil) != (err != nil) || out2 != out {
+					sig["kind"], sig["form"] = "builtin-forms", form+1
+					return Result{Sig: sig, Observed: out2, Expected: out, Key: "tables",
+						Detail: fmt.Sprintf("%s rendered %q (err %v), the plain call %s renders %q", alt, out2, err2, src, out)}
+				}
+			}
+		}
 		// every argument expression of a call is evaluated exactly once (idv is an identity function that counts)
 		wrapped := make([]string, len(bi.Args))
 		for i, x := range bi.Args {
